@@ -44,42 +44,47 @@ def modelledSortedSet : List String :=
   ["Add", "Count", "GetRange", "GetRangeByScore", "GetRank", "GetScore", "Len", "Remove",
    "RemoveRangeByRank", "RemoveRangeByScore"]
 
-/-- the comparisons the model functions mirror, per source function, in source order -/
+/-- the comparisons the model functions mirror, per source function, in source order; the text is
+  alpha-normalised by the extractor so that names chosen inside a function do not matter: `_r` is the
+  receiver, `_pN` the N-th parameter, `_vN` the locals the table mentions in order of declaration
+  (e.g. `Insert(score, ele)`: `_p0` = score, `_p1` = ele, `_v0` = update, `_v1` = x, `_v2`/`_v4`… = the loop indices) -/
 def modelCmps : List (String × List String) :=
-  [("L.deleteNode", ["i < zsl.level", "update[i].level[i].forward == x", "x.level[0].forward != nil",
-      "zsl.level > 1", "zsl.head.level[zsl.level-1].forward == nil"]),
+  [("L.deleteNode", ["_v0 < _r.level", "_p1[_v0].level[_v0].forward == _p0", "_p0.level[0].forward != nil",
+      "_r.level > 1", "_r.head.level[_r.level-1].forward == nil"]),
    -- randLevel is not modelled (the tower height is an input of S.insert); what the theorems need from it
    -- is its range: it starts at 1 and clamps at ZSKIPLIST_MAXLEVEL
-   ("L.randLevel", ["float32(seed) < ZSKIPLIST_P*0xFFFF", "level > ZSKIPLIST_MAXLEVEL"]),
-   ("L.Insert", ["i >= 0", "i != zsl.level-1", "x.level[i].forward != nil", "x.level[i].forward.Score < score",
-      "x.level[i].forward.Score == score", "x.level[i].forward.Ele.CompareTo(ele) < 0", "level > zsl.level",
-      "i < level", "i < level", "i < zsl.level", "update[0] != zsl.head", "x.level[0].forward != nil"]),
-   ("L.Delete", ["i >= 0", "x.level[i].forward != nil", "x.level[i].forward.Score < score",
-      "x.level[i].forward.Score == score", "x.level[i].forward.Ele.CompareTo(ele) < 0", "x != nil",
-      "score == x.Score", "x.Ele.CompareTo(ele) == 0"]),
-   ("L.DeleteRangeByRank", ["i >= 0", "x.level[i].forward != nil", "traversed+x.level[i].span < start", "x != nil",
-      "traversed <= end"]),
-   ("L.DeleteRangeByScore", ["i >= 0", "x.level[i].forward != nil", "x.level[i].forward.Score < min", "x != nil",
-      "x.Score <= max"]),
-   ("L.GetRank", ["i >= 0", "x.level[i].forward != nil", "x.level[i].forward.Score < score",
-      "x.level[i].forward.Score == score", "x.level[i].forward.Ele.CompareTo(ele) <= 0", "x.Ele != nil",
-      "x.Ele.CompareTo(ele) == 0"]),
-   ("L.GetElementByRank", ["i >= 0", "x.level[i].forward != nil", "tranversed+x.level[i].span <= rank",
-      "tranversed == rank"]),
-   ("L.IsInRange", ["min > max", "x == nil", "x.Score < min", "x == nil", "x.Score > max"]),
-   ("L.FirstInRange", ["i >= 0", "x.level[i].forward != nil", "x.level[i].forward.Score < min", "x != nil",
-      "x.Score > max"]),
-   ("L.LastInRange", ["i >= 0", "x.level[i].forward != nil", "x.level[i].forward.Score <= max", "x.Score < min"]),
-   ("Z.Add", ["curscore != score"]),
+   ("L.randLevel", ["float32(_v1) < ZSKIPLIST_P*0xFFFF", "_v0 > ZSKIPLIST_MAXLEVEL"]),
+   ("L.Insert", ["_v2 >= 0", "_v2 != _r.level-1", "_v1.level[_v2].forward != nil",
+      "_v1.level[_v2].forward.Score < _p0", "_v1.level[_v2].forward.Score == _p0",
+      "_v1.level[_v2].forward.Ele.CompareTo(_p1) < 0", "_v3 > _r.level", "_v4 < _v3", "_v5 < _v3",
+      "_v6 < _r.level", "_v0[0] != _r.head", "_v1.level[0].forward != nil"]),
+   ("L.Delete", ["_v1 >= 0", "_v0.level[_v1].forward != nil", "_v0.level[_v1].forward.Score < _p0",
+      "_v0.level[_v1].forward.Score == _p0", "_v0.level[_v1].forward.Ele.CompareTo(_p1) < 0", "_v0 != nil",
+      "_p0 == _v0.Score", "_v0.Ele.CompareTo(_p1) == 0"]),
+   ("L.DeleteRangeByRank", ["_v2 >= 0", "_v1.level[_v2].forward != nil", "_v0+_v1.level[_v2].span < _p0",
+      "_v1 != nil", "_v0 <= _p1"]),
+   ("L.DeleteRangeByScore", ["_v1 >= 0", "_v0.level[_v1].forward != nil", "_v0.level[_v1].forward.Score < _p0",
+      "_v0 != nil", "_v0.Score <= _p1"]),
+   ("L.GetRank", ["_v1 >= 0", "_v0.level[_v1].forward != nil", "_v0.level[_v1].forward.Score < _p0",
+      "_v0.level[_v1].forward.Score == _p0", "_v0.level[_v1].forward.Ele.CompareTo(_p1) <= 0", "_v0.Ele != nil",
+      "_v0.Ele.CompareTo(_p1) == 0"]),
+   ("L.GetElementByRank", ["_v2 >= 0", "_v1.level[_v2].forward != nil", "_v0+_v1.level[_v2].span <= _p0",
+      "_v0 == _p0"]),
+   ("L.IsInRange", ["_p0 > _p1", "_v0 == nil", "_v0.Score < _p0", "_v0 == nil", "_v0.Score > _p1"]),
+   ("L.FirstInRange", ["_v1 >= 0", "_v0.level[_v1].forward != nil", "_v0.level[_v1].forward.Score < _p0",
+      "_v0 != nil", "_v0.Score > _p1"]),
+   ("L.LastInRange", ["_v1 >= 0", "_v0.level[_v1].forward != nil", "_v0.level[_v1].forward.Score <= _p1",
+      "_v0.Score < _p0"]),
+   ("Z.Add", ["_v0 != _p1"]),
    ("Z.Remove", []),
-   ("Z.RemoveRangeByScore", ["min > max"]),
-   ("Z.RemoveRangeByRank", ["start < 0", "end < 0", "start < 0", "start > end", "start >= llen", "end >= llen"]),
-   ("Z.Count", ["min > max", "zn != nil", "zn != nil"]),
+   ("Z.RemoveRangeByScore", ["_p0 > _p1"]),
+   ("Z.RemoveRangeByRank", ["_p0 < 0", "_p1 < 0", "_p0 < 0", "_p0 > _p1", "_p0 >= _v0", "_p1 >= _v0"]),
+   ("Z.Count", ["_p0 > _p1", "_v0 != nil", "_v0 != nil"]),
    ("Z.GetRank", []),
    ("Z.GetScore", []),
-   ("Z.GetRange", ["start < 0", "end < 0", "start < 0", "start > end", "start >= llen", "end >= llen", "start > 0",
-      "start > 0", "rangeLen > 0"]),
-   ("Z.GetRangeByScore", ["min > max", "node == nil", "node != nil", "node.Score < min", "node.Score > max"])]
+   ("Z.GetRange", ["_p0 < 0", "_p1 < 0", "_p0 < 0", "_p0 > _p1", "_p0 >= _v0", "_p1 >= _v0", "_p0 > 0",
+      "_p0 > 0", "_v1 > 0"]),
+   ("Z.GetRangeByScore", ["_p0 > _p1", "_v0 == nil", "_v0 != nil", "_v0.Score < _p0", "_v0.Score > _p1"])]
 
 /-- the source still has the shape the models were written from -/
 def Valid (P : Params) : Prop :=
